@@ -218,6 +218,39 @@ Qed.
 Lemma handler_today_ok : handler_ok true handler_today = true.
 Proof. reflexivity. Qed.
 
+(* ---- no construct on the signal path swallows the exit ----------------------------------------- *)
+Lemma propagate_exits : forall path d,
+  (forall e, In e path -> intercepts e = false) -> propagate path d = Exits.
+Proof.
+  induction path as [|e r IH]; intros d H; cbn [propagate]; [reflexivity|].
+  rewrite (H e (or_introl eq_refl)). apply IH. intros x Hx. apply H. right. exact Hx.
+Qed.
+
+Theorem no_swallow_sound (table : list xentry) :
+  no_swallow table = true ->
+  forall path, incl path table -> forall d, propagate path d = Exits.
+Proof.
+  unfold no_swallow. rewrite forallb_forall. intros H path Hin d. apply propagate_exits.
+  intros e He. apply negb_true_iff. apply H. apply Hin. exact He.
+Qed.
+
+(* handler + propagation: the process terminates with the configured code *)
+Theorem exit_reaches_top {S} (cur : S) (conf other : Z) (effs : list heff) (w : hworld S) (npw : bool)
+        (table path : list xentry) :
+  handler_ok npw effs = true -> exit_code w = None ->
+  no_swallow table = true -> incl path table ->
+  process_exit (hrun cur conf other npw effs w) path = Some conf
+  /\ written (hrun cur conf other npw effs w) = written w ++ [cur].
+Proof.
+  intros H E N I. destruct (handler_sound cur conf other effs w npw H E) as (Hw & Hc & _).
+  unfold process_exit. rewrite (no_swallow_sound table N path I 0). split; assumption.
+Qed.
+
+(* and a swallowing construct on the path defeats it, whatever the handler does *)
+Lemma swallowed_no_exit {S} (w : hworld S) (e : xentry) (path : list xentry) :
+  intercepts e = true -> process_exit w (e :: path) = None.
+Proof. intros H. unfold process_exit. cbn [propagate]. rewrite H. reflexivity. Qed.
+
 (* ---- the importance sampler refuses mid-iteration checkpoints -------------------------------- *)
 Theorem ins_intact {FS} (write touch : FS -> FS) : forall effs fs,
   ins_ckpt_ok effs = true -> irun write touch effs false fs = fs.
